@@ -26,6 +26,11 @@ type Sel struct {
 	HeaderKnown map[*Node]bool
 	// Manual: manually invalidated nodes.
 	Manual map[*Node]bool
+	// Cleared: nodes that were reconsidered while not being the manually invalidated block
+	// themselves (an ancestor or a descendant is): btcd then clears the invalid-ancestor marks
+	// of the node's subtree although a block on the path stays invalidated; what a later header
+	// delivery on such a path returns is open.
+	Cleared map[*Node]bool
 	// Murky: nodes with invalid ancestry (or delivered under a manually
 	// invalidated ancestor) whose storage status the property leaves open.
 	Murky map[*Node]bool
@@ -42,7 +47,7 @@ type Sel struct {
 // NewSel returns the model for a tree with only genesis arrived.
 func NewSel(t *Tree) *Sel {
 	s := &Sel{T: t, Arrived: map[*Node]bool{t.Genesis: true}, StoredInvalid: map[*Node]bool{}, Orphan: map[*Node]bool{},
-		HeaderKnown: map[*Node]bool{}, Manual: map[*Node]bool{}, Murky: map[*Node]bool{}, Tip: t.Genesis}
+		HeaderKnown: map[*Node]bool{}, Manual: map[*Node]bool{}, Cleared: map[*Node]bool{}, Murky: map[*Node]bool{}, Tip: t.Genesis}
 	return s
 }
 
@@ -53,6 +58,15 @@ func ancestryValid(n *Node) bool { return n.Parent == nil || n.Parent.ChainValid
 func (s *Sel) ManualOnPath(n *Node) bool {
 	for it := n; it != nil; it = it.Parent {
 		if s.Manual[it] {
+			return true
+		}
+	}
+	return false
+}
+
+func (s *Sel) clearedOnPath(n *Node) bool {
+	for it := n; it != nil; it = it.Parent {
+		if s.Cleared[it] {
 			return true
 		}
 	}
@@ -318,6 +332,9 @@ func (s *Sel) DeliverHeader(n *Node) *bool {
 	}
 	if s.Arrived[n] || s.HeaderKnown[n] {
 		if s.ManualOnPath(n) {
+			if s.clearedOnPath(n) {
+				return nil
+			}
 			return &no
 		}
 		return &yes
@@ -370,6 +387,9 @@ func (s *Sel) Invalidate(n *Node) {
 
 // Reconsider advances the model for ReconsiderBlock(n).
 func (s *Sel) Reconsider(n *Node) {
+	if !s.Manual[n] {
+		s.Cleared[n] = true
+	}
 	delete(s.Manual, n)
 	s.moveTipAfterManual()
 }
